@@ -67,6 +67,9 @@ func (S *LevelDbStore) GetCertRevocationStatus(issuer *pkix.RDNSequence, certSer
 		if err != nil {
 			return nil, fmt.Errorf("could not deserialize revoked cert: %v", err)
 		}
+	} else if !errors.Is(err, leveldb.ErrNotFound) {
+		//only a missing key means not revoked, any other error means the status is unknown
+		return nil, fmt.Errorf("could not read revocation status from database: %v", err)
 	}
 	return &core.RevocationStatus{
 		Revoked:             revoked,
